@@ -199,10 +199,15 @@ def run(ctx):
     R.must_pass(ctx, "C03.R5", MW + "compress", r"noodles_bgzf::deflate::encode$", "MT compress() uses the shared deflate::encode")
     if wt is not None:
         R.must_pass(ctx, "C03.R5", wt.key, None, "writer thread ends with the shared BGZF_EOF", fn=wt,
-                    callpred=R.call_with_const_arg(r"Write::write_all$", {"noodles_bgzf::io::writer::BGZF_EOF"}))
+                    callpred=R.call_with_const_arg(r"Write>?::write_all$", {"noodles_bgzf::io::writer::BGZF_EOF"}))
     if rw is not None:
         R.must_pass(ctx, "C03.R5", rw.key, r"reader::frame::parse_block$", "inflate worker uses the shared CRC-checking parse_block", fn=rw,
                     exits=C.return_blocks(rw))
+
+    ctx.rule("C03.R9", "A9 sibling agreement: the multithreaded reader's sequential loader skips empty blocks like the single-threaded and the "
+                       "async reader (an empty block in mid-file is not end of stream)")
+    from .c02 import skip_empty_blocks_rule
+    skip_empty_blocks_rule(ctx, "C03.R9", 3)
 
     # ---------------------------------------------------------------- R6 terminal state is not a panic trap
     ctx.rule("C03.R6", "A6 finish()/write()/flush() of the MT writer are total: the Done state, which send() enters by itself when the "
